@@ -559,6 +559,9 @@ func (t *fedTransport) RoundTrip(req *http.Request) (*http.Response, error) {
 			resp = "<html>bad gateway</html>"
 		case "errorsOnly":
 			resp = `{"errors":[{"message":"subgraph failed"}]}`
+		case "errorsWithLocation":
+			// servers report unknown positions as -1 (graphql-java) or 0
+			resp = `{"errors":[{"message":"subgraph failed","locations":[{"line":-1,"column":-1}],"path":["_entities",0]}],"data":null}`
 		case "wrongCount":
 			resp = strings.Replace(resp, `"_entities":[`, `"_entities":[null,`, 1)
 		}
